@@ -87,7 +87,7 @@ func (s *JoiningSource) run() error {
 	if src := s.tryGetSource(s.handler, s.liveSourceFactory); src != nil {
 		s.liveSource = src
 
-		s.OnTerminating(s.liveSource.Shutdown)
+		s.shutdownWith(s.liveSource)
 		s.liveSource.Run()
 		return s.liveSource.Err()
 	}
@@ -103,17 +103,26 @@ func (s *JoiningSource) run() error {
 			s.cursor.String())
 	}
 
-	s.OnTerminating(fileSrc.Shutdown)
+	s.shutdownWith(fileSrc)
 	fileSrc.Run()
 
 	if s.liveSource == nil { // got stopped before joining
 		return fileSrc.Err()
 	}
 
-	s.OnTerminating(s.liveSource.Shutdown)
+	s.shutdownWith(s.liveSource)
 	s.liveSource.Run()
 	return s.liveSource.Err()
 
+}
+
+// shutdownWith makes `src` shut down together with the joining source, also when the joining source
+// was shut down before the callback could be registered (a callback registered after Shutdown is never called).
+func (s *JoiningSource) shutdownWith(src Source) {
+	s.OnTerminating(src.Shutdown)
+	if s.IsTerminating() {
+		src.Shutdown(s.Err())
+	}
 }
 
 func (s *JoiningSource) tryGetSource(handler Handler, factory ForkableSourceFactory) Source {
